@@ -31,7 +31,7 @@ PROP = "C19"
 LEVEL = "exploration"
 RULE = (
     "all 24 Euler conventions (string and tuple form) x angle triples from a grid holding 0, +-pi/2, +-pi, "
-    "gimbal +-1e-9 and generic values (quick: 9 x 20 x 9 per convention, thorough: 20^3); integer quaternions "
+    "gimbal +-1e-9 and generic values (quick: 8 x 20 x 8 per convention, thorough: 20^3); integer quaternions "
     "in [-3,3]^4 (every component dominant, both signs) plus scaled / random ones; the 24 proper signed "
     "permutation matrices; axis-angle over axes x angle grid x points; TRS(+shear) factor sets incl. negative "
     "scales; 2-D and 3-D point arrays x matrix classes (both sides of the 1e-8 identity shortcut) x "
@@ -86,7 +86,7 @@ AXES_ALL = [f + "".join(p) for f in "sr" for p in (
     "xyz", "xyx", "xzy", "xzx", "yzx", "yzy", "yxz", "yxy", "zxy", "zxz", "zyx", "zyz")]
 AJ_GRID = [0.0, PI / 2, -PI / 2, PI, -PI, PI / 2 + 1e-9, PI / 2 - 1e-9, -PI / 2 + 1e-9, -PI / 2 - 1e-9,
            1e-9, -1e-9, PI - 1e-9, -PI + 1e-9, 0.3, -1.1, 2.5, PI / 4, -3 * PI / 4, 4.0, -5.5]
-AI_GRID_QUICK = [0.0, PI / 2, -PI / 2, PI, 1e-9, 0.3, -1.1, 2.5, -PI + 1e-9]
+AI_GRID_QUICK = [0.0, PI / 2, -PI / 2, PI, 1e-9, 0.3, -1.1, 2.5]
 
 
 # ------------------------------------------------------------------------------------------
@@ -1139,19 +1139,19 @@ def workload(run):
     done = 0
     total = 0
     cut = False
-    for axes in AXES_ALL:
-        for n, (aj, ai, ak) in enumerate(itertools.product(AJ_GRID, ai_grid, ai_grid)):
+    # triples outermost, conventions innermost: a run cut short by its budget has still put every
+    # convention through the same (gimbal-first) prefix of the grid
+    for n, (aj, ai, ak) in enumerate(itertools.product(AJ_GRID, ai_grid, ai_grid)):
+        for a_i, axes in enumerate(AXES_ALL):
             total += 1
             idx += 1
             if not run.mine(idx):
                 continue
             if run.out_of_time(0.93):
                 cut = True
-                break
-            euler_case(j, tf, axes, "string" if n % 2 == 0 else "tuple", ai, aj, ak)
+                continue
+            euler_case(j, tf, axes, "string" if (n + a_i) % 2 == 0 else "tuple", ai, aj, ak)
             done += 1
-        if cut:
-            break
     run.count("euler_grid_cases", done)
     if cut:
         run.count("euler_grid_cut_short")
@@ -1159,7 +1159,7 @@ def workload(run):
             # a quick run that cannot finish the enumerated grid has not covered every convention
             run.inconclusive("Euler grid not completed within the budget (%d of %d)" % (done, total))
     # random triples on top
-    while not run.out_of_time(0.97) and (not quick or done < 60000):
+    while not run.out_of_time(0.97) and (not quick or done < 42000):
         axes = AXES_ALL[int(rng.integers(24))]
         ai, aj, ak = (float(x) for x in rng.uniform(-2 * PI, 2 * PI, size=3))
         euler_case(j, tf, axes, "string" if rng.random() < 0.5 else "tuple", ai, aj, ak)
